@@ -21,6 +21,7 @@ pub mod c12;
 pub mod c13;
 pub mod c14;
 pub mod c15;
+pub mod c15b;
 pub mod c16;
 pub mod c18;
 pub mod c19;
@@ -74,7 +75,8 @@ pub fn replay(prop: &str, file: &str) -> i32 {
 	match prop {
 		"C06" | "C01" | "C07" | "C11" if r["engine"] == "world" => replay_world(prop, &r),
 		"C02" | "C03" | "C07" | "C07c" | "C11" if r["engine"] == "crash" => crash::replay(if prop == "C07c" { "C07" } else { prop }, &r),
-		"C05" | "C17" | "C04" | "C01" | "C02" | "C04s" | "C01s" | "C02s" if r["engine"] == "schedx" => sched::replay(prop.trim_end_matches('s'), &r),
+		"C05" | "C17" | "C04" | "C01" | "C02" | "C11" | "C04s" | "C01s" | "C02s" if r["engine"] == "schedx" => sched::replay(prop.trim_end_matches('s'), &r),
+		"C07" if r["engine"] == "c07-shrink" || r["engine"] == "c07-oversize" => c07::replay(&r),
 		"C04" => c04::replay(&r),
 		"C08" => c08::replay(&r),
 		"C09" => c09::replay(&r),
@@ -256,8 +258,9 @@ pub fn run_world_space(
 				let ops = &part[i];
 				// determinism re-check before reporting
 				let again = run_world(opt, ops, probe);
-				let same = again.failure.as_ref().map(|g| (g.step, g.kind.clone(), g.detail.clone()))
-					== Some((f.step, f.kind.clone(), f.detail.clone()));
+				// (messages carry scratch-directory paths: compare them with digits normalised)
+				let same = again.failure.as_ref().map(|g| (g.step, g.kind.clone(), norm_msg(&g.detail)))
+					== Some((f.step, f.kind.clone(), norm_msg(&f.detail)));
 				if !same {
 					eprintln!(
 						"machinery: non-deterministic failure on [{}] {}: first {:?}, second {:?}",
